@@ -42,7 +42,7 @@ PROPERTY_RULES: Dict[str, List[str]] = {
     "C08": ["R6", "R20/table/input_delays", "R5/store", "R19/zero", "R19/anc-closure", "R19/closure", "R7/key", "R7/R9", "R5/update_min", "R1/O5b"],
     "C09": ["R20/ports", "R7/R9", "R2/INFLIGHT", "R2/anc", "R4/notify", "R4/wake", "R4/dedup", "R8/lift", "R3/R12", "R4/outtime", "R19/interval", "R20/delay", "R20/table/triggers", "R1/O3", "R1/O1", "R5/store", "R14/waiter", "R14/groups"],
     "C10": ["R1/O3", "R3/P1", "R1/O4", "R2/INFLIGHT", "R2/sink", "R2/own", "R20/table/successors", "R20/delay", "R20/async", "R20/writers", "R10/R18"],
-    "C11": ["R7/R9", "R20", "R19/interval", "R19/group_path", "R19/group-scope", "R22/readers", "R22/tuple", "R22/defaults", "R22/forbidden", "R22/triple", "R22/wrap", "R22/op"],
+    "C11": ["R7/R9", "R20", "R19/interval", "R19/group_path", "R19/group-scope", "R22/readers", "R22/tuple", "R22/defaults", "R22/forbidden", "R22/triple", "R22/wrap", "R22/args", "R22/op"],
     "C12": ["R22", "R23/feature"],
     "C13": ["R11", "R22/type-readers", "R3/P2", "R3/P6", "R14/waiter", "R14/groups"],
     "C14": ["R14", "R23/feature", "R11/conn", "R11/raw", "R11/local"],
@@ -78,7 +78,7 @@ CLAIMS: Dict[str, Tuple[str, str]] = {
             "the run-ahead bound over executions"),
     "C11": ("the rejection table of connect_one as an exhaustive decision table (exactly the four rejection classes, ScenarioError), no data-flow effect in any rejected row, which table gets which entry in every accepted row, weak needs a shared non-root group, shift/weak tiers, identity semantics of simulator groups, and the classification the table reads (defaults table, forbidden kinds and triple inference of parse_attrs: which inputs are non-trigger decides which connections need initial data; the operators of the co-finite set algebra, through which input_attrs / output_attrs -- the sets that the existence check of connect() tests -- are computed); connect() only reads its arguments (the caller's initial_data survives), group blocks nest",
             "'exactly when' over all concrete model descriptions"),
-    "C12": ("the co-finite set algebra exhaustively (pointwise truth tables of every OutSet operator and branch), the inference equations and rejections of parse_set_triple, the defaults table of parse_attrs for all 192 combinations of type x any_inputs x present keys, the forbidden-kind guards, tuple order writer/reader agreement; the type a pre-v3 simulator announces survives adaptation (only a missing type is defaulted), factory and runner read the type alike; wrap_set passes None and an OutSet (parse_attrs' own co-finite default) through and turns a list into its frozenset",
+    "C12": ("the co-finite set algebra exhaustively (pointwise truth tables of every OutSet operator and branch), the inference equations and rejections of parse_set_triple, the defaults table of parse_attrs for all 192 combinations of type x any_inputs x present keys, the forbidden-kind guards, tuple order writer/reader agreement; the type a pre-v3 simulator announces survives adaptation (only a missing type is defaulted), factory and runner read the type alike; wrap_set passes None and an OutSet (parse_attrs' own co-finite default) through and turns a list into its frozenset; parse_attrs only reads its arguments (no table of defaults that is filled in place and shared by the models of a simulator)",
             "the value-level input/output relation of parse_attrs over all concrete descriptions"),
     "C13": ("decision table of scheduler.step / get_outputs over the reply: every malformed reply class has a dominating SimulationError naming the simulator and precedes every effect; what is validated is the reply itself (SimRunner, adapters and remote proxy return exactly the awaited forward, no conversion, no edit, handlers re-raise); the popped step is never re-inserted; factory and runner read the announced type alike (the runner's copy decides what is demanded of the reply), an exception of a plain in-process method is not caught by the generator-protocol handler",
             "reply classes not listed in the statement"),
